@@ -144,14 +144,12 @@ def _name(value, table, what):
 
 
 def read_id(text):
-    for version, id_type in ((4, ID_IPV4_ADDR), (6, ID_IPV6_ADDR)):
-        try:
-            addr = ipaddress.ip_address(text)
-        except ValueError:
-            break
-        if addr.version == version:
-            return id_type, addr.packed
-    return (ID_RFC822_ADDR if '@' in text else ID_FQDN), text.encode('utf-8')
+    """an identity text is an IPv4 address, an IPv6 address, an e-mail address (contains '@') or else an FQDN"""
+    try:
+        addr = ipaddress.ip_address(text)
+    except ValueError:
+        return (ID_RFC822_ADDR if '@' in text else ID_FQDN), text.encode('utf-8')
+    return (ID_IPV4_ADDR if addr.version == 4 else ID_IPV6_ADDR), addr.packed
 
 
 def _pem_kind(text):
